@@ -13,6 +13,12 @@
 //!              return an error.
 //!  * `many-*` (round 2) the same clauses for columns / streams with 7..=20 (thorough 7..=40) distinct
 //!              categories: `many-layout`, `many-unseen`, `many-nonint`, `many-mapper`.
+//!  * `ptval`   (pass-through values) the layout space for p <= 4 (+ framed layouts with a plain column
+//!              before, between and after the categorical ones) with the plain columns filled from an
+//!              alphabet of extreme values (signed zeros, subnormals, values below epsilon, largest
+//!              magnitudes): every cell x every letter, compared bit for bit;
+//!  * `xunseen` fitted columns that hold both legal extreme codes 0 and 65535 (every arrangement) x
+//!              every cell x 10 values that are invalid in different ways -> transform must return Err.
 //! E2 (explicit-state search over category streams): `CategoryMapper`, see `mapper.rs`.
 
 mod enc;
@@ -431,6 +437,173 @@ fn run_mapper_many(job: &Job) {
     mc::describe(|| json!({"type": ty.name(), "k": k, "order": order_name, "row_pattern": pattern, "stream_of_letter_indices": letters, "stream": mapper::show_many(ty, &letters)}));
 }
 
+// ------------------------------------------------------------------------------------------------
+// extreme pass-through values / extreme category codes (extension "pass-through values")
+
+fn run_ptval(job: &Job) {
+    let (p, mask, kmax, full, nbe, seed) = (job.u("p"), job.u("mask"), job.u("kmax"), job.u("full"), job.u("backends"), job.u("seed") as u64);
+    let cats = bits(mask, p);
+    let m = cats.len();
+    let ks = draw_ks(m, kmax);
+    let ord = order(m, full, mc::choose(n_orders(m, full)));
+    let cs = mc::choose(N_CODE_SCHEMES);
+    let rs = mc::choose(job.u("row_schemes"));
+    let be = BACKENDS[mc::choose(nbe)];
+    let mode = mc::choose(job.u("modes"));
+    let a = mc::choose(N_PT);
+    let f32b = be.is_f32();
+    let rows = ptval_rows(f32b, p, &cats, &ks, cs, rs, a, mode, seed);
+    let given: Vec<usize> = ord.iter().map(|i| cats[*i]).collect();
+    mc::count("ptval_cases");
+    let plain_cols: Vec<usize> = (0..p).filter(|c| !cats.contains(c)).collect();
+    assert!(!plain_cols.is_empty(), "pass-through jobs are planned only for layouts with a plain column");
+    if has_extreme_pass_through(&rows, &cats) {
+        mc::count("ptval_class_extreme_pass_through_values");
+    }
+    let (before, after, between) = match (cats.first(), cats.last()) {
+        (Some(&lo), Some(&hi)) => (plain_cols.iter().any(|c| *c < lo), plain_cols.iter().any(|c| *c > hi), plain_cols.iter().any(|c| *c > lo && *c < hi)),
+        _ => (false, false, false),
+    };
+    if before {
+        mc::count("ptval_plain_column_before_categoricals");
+    }
+    if between {
+        mc::count("ptval_plain_column_between_categoricals");
+    }
+    if after {
+        mc::count("ptval_plain_column_after_categoricals");
+    }
+    if before && between && after {
+        mc::count("ptval_plain_column_before_between_and_after");
+    }
+    if given != cats {
+        mc::count("ptval_index_list_not_sorted");
+    }
+    let out = check_fit_transform(be, &rows, &cats, &given);
+    // non-vacuity: count the extreme letters that were compared (and found unchanged) bit for bit
+    if let Some(o) = &out {
+        let exp = reference(&rows, &cats);
+        if o.len() == exp.rows.len() && o.iter().zip(exp.rows.iter()).all(|(x, y)| x.len() == y.len()) {
+            for (q, (_, cat)) in exp.origin.iter().enumerate() {
+                if cat.is_some() {
+                    continue;
+                }
+                for r in 0..o.len() {
+                    if o[r][q].to_bits() == exp.rows[r][q].to_bits() {
+                        mc::count(match pt_kind(f32b, exp.rows[r][q]) {
+                            "negative-zero" => "ptval_negative_zero_unchanged",
+                            "positive-zero" => "ptval_positive_zero_unchanged",
+                            "subnormal" => "ptval_subnormal_unchanged",
+                            "below-epsilon" => "ptval_below_epsilon_unchanged",
+                            "huge" => "ptval_huge_unchanged",
+                            _ => "ptval_ordinary_unchanged",
+                        });
+                    }
+                }
+            }
+        }
+    }
+    mc::nontrivial();
+    mc::outcome(out.as_ref().map(digest_rows_bits).unwrap_or(0xdead));
+    mc::describe(|| {
+        let mut d = describe_case(be, &rows, &cats, &given, &out);
+        d["alphabet_rotation"] = json!(a);
+        d["fill_mode"] = json!(mode);
+        d["bits_of_x"] = json!(rows.iter().map(|r| r.iter().map(|v| format!("{:016x}", v.to_bits())).collect::<Vec<_>>()).collect::<Vec<_>>());
+        d
+    });
+}
+
+/// A column that holds both legal extreme codes 0 and 65535 gets invalid values in every cell; each must
+/// be rejected. Row patterns n = k, k+1 (quick) and 2k (thorough only).
+fn run_xunseen(job: &Job) {
+    let (k, li, nbe, seed) = (job.u("k"), job.u("layout"), job.u("backends"), job.u("seed") as u64);
+    let (p, cats) = EXTREME_LAYOUTS[li];
+    let m = cats.len();
+    let set = extreme_code_set(k, mc::choose(n_extreme_code_sets(k)));
+    let pattern = mc::choose(job.u("row_patterns"));
+    let rev = m >= 2 && mc::choose(2) == 1;
+    let be = BACKENDS[mc::choose(nbe)];
+    let rows = extreme_rows(p, cats, &set, pattern, seed);
+    let given: Vec<usize> = if rev { cats.iter().rev().copied().collect() } else { cats.to_vec() };
+    for c in cats {
+        let fa = first_appearance(&rows, *c);
+        assert!(fa.len() == k && fa.contains(&0.0) && fa.contains(&65535.0), "extreme-code generator is broken");
+    }
+    // control: the unchanged matrix (legal extreme codes only) must be encoded correctly
+    if mc::choose(2) == 0 {
+        mc::count("xunseen_control_cases");
+        let before = mc::n_violations();
+        let out = check_fit_transform(be, &rows, cats, &given);
+        if out.is_some() && mc::n_violations() == before {
+            mc::count("xunseen_control_encoded_correctly");
+        }
+        mc::nontrivial();
+        mc::outcome(out.as_ref().map(digest_rows).unwrap_or(0xdead));
+        mc::describe(|| describe_case(be, &rows, cats, &given, &out));
+        return;
+    }
+    let i = mc::choose(m);
+    let r = mc::choose(rows.len());
+    let w = mc::choose(INVALID_VALUES.len());
+    let pair = mc::choose(2) == 1;
+    let col = cats[i];
+    let n = rows.len();
+    // one invalid value in cell (r, col); pair: a second, different one in the next row (cyclically)
+    let mut edits = vec![(r, INVALID_VALUES[w])];
+    if pair {
+        assert!(n >= 2);
+        edits.push(((r + 1) % n, INVALID_VALUES[(w + 1) % INVALID_VALUES.len()]));
+    }
+    let class = if pair { "two-invalid-values".to_string() } else { invalid_kind(edits[0].1).to_string() };
+    let seen = first_appearance(&rows, col);
+    let enc = match guarded_fit(be, &rows, &given) {
+        FitOutcome::Ok(e) => e,
+        _ => {
+            // reported by the control execution of the same matrix
+            mc::count("xunseen_fit_failed");
+            return;
+        }
+    };
+    let mut x2 = rows.clone();
+    for (rr, v) in &edits {
+        assert!(quant(be, *v) == *v && !seen.contains(v));
+        x2[*rr][col] = *v;
+    }
+    let head = || format!("{} p={} categorical={:?} fitted on x={} (codes of column {}: {:?}); transform of x with {}", be.name(), p, given, fmt_rows(&rows), col, seen, edits.iter().map(|(rr, v)| format!("x[{}][{}]={}", rr, col, v)).collect::<Vec<_>>().join(", "));
+    match mc::guard(|| be.transform(&enc, &x2)) {
+        Err(pi) => {
+            mc::violation(format!("onehot.transform:invalid-value-in-column-holding-codes-0-and-65535:{}:panic", class), format!("{}: panicked instead of returning an error: {}", head(), pi.brief()));
+            mc::outcome(2);
+        }
+        Ok(Ok(o)) => {
+            mc::violation(
+                format!("onehot.transform:invalid-value-in-column-holding-codes-0-and-65535:{}:accepted", class),
+                format!("{}: returned Ok (row {} encoded as {:?}) instead of an error", head(), edits[0].0, o.get(edits[0].0)),
+            );
+            mc::outcome(1);
+        }
+        Ok(Err(_)) => {
+            mc::count("xunseen_rejected");
+            mc::outcome(0);
+        }
+    }
+    mc::count("xunseen_cases");
+    if pair {
+        mc::count("xunseen_two_invalid_values");
+    } else {
+        mc::count(match invalid_kind(edits[0].1) {
+            "negative-integer" => "xunseen_negative_integer",
+            "negative-fraction" => "xunseen_negative_fraction",
+            "integer-above-65535" => "xunseen_integer_above_65535",
+            "fraction-above-65535" => "xunseen_fraction_above_65535",
+            _ => "xunseen_fraction_in_range",
+        });
+    }
+    mc::nontrivial();
+    mc::describe(|| json!({"backend": be.name(), "fitted_on": rows, "categorical_columns_as_given": given, "transformed": x2, "column": col, "fitted_codes_of_that_column": seen, "invalid_values": edits, "class": class}));
+}
+
 fn run_mapper_replay(job: &Job) {
     let ty = Ty::parse(job.s("ty"));
     let letters = job.u("letters");
@@ -534,6 +707,39 @@ impl Harness for C18 {
                 jobs.push(Job::new(format!("many-nonint-k{}-l{}", k, li), json!({"kind": "many-nonint", "k": k, "layout": li, "backends": nbe, "seed": seed})));
             }
         }
+        // ---- extreme pass-through values: the layout space for p <= 4 (thorough 5), every subset that
+        // leaves at least one plain column, plus framed layouts with a plain column before, between and
+        // after the categorical columns
+        assert!(pt_alphabet_ok(), "pass-through alphabet is not what its table says");
+        let (p_pt, pt_modes, pt_row_schemes) = if t { (5, 2, N_ROW_SCHEMES) } else { (4, 1, 2) };
+        let mut pt_layouts: Vec<(usize, usize)> = Vec::new();
+        for p in 1..=p_pt {
+            for mask in masks_simplest_first(p) {
+                if mask + 1 < 1usize << p {
+                    pt_layouts.push((p, mask));
+                }
+            }
+        }
+        // [P,C,P,C,P], [P,C,C,P,C,P], [P,C,P,C,P,C,P] (thorough also [P,C,P,C,P,C,P,C,P])
+        let mut framed: Vec<(usize, usize)> = vec![(5, 0b01010), (6, 0b010110), (7, 0b0101010)];
+        if t {
+            framed.push((9, 0b010101010));
+        }
+        for f in framed {
+            if !pt_layouts.contains(&f) {
+                pt_layouts.push(f);
+            }
+        }
+        for (p, mask) in pt_layouts {
+            jobs.push(Job::new(format!("ptval-p{}-m{:0w$b}", p, mask, w = p), json!({"kind": "ptval", "p": p, "mask": mask, "kmax": 3, "full": 3, "backends": nbe, "row_schemes": pt_row_schemes, "modes": pt_modes, "seed": seed})));
+        }
+        // ---- invalid values in a column that holds both legal extreme codes 0 and 65535
+        let (k_x, x_patterns) = if t { (5, 3) } else { (4, 2) };
+        for k in 2..=k_x {
+            for li in 0..EXTREME_LAYOUTS.len() {
+                jobs.push(Job::new(format!("xunseen-k{}-l{}", k, li), json!({"kind": "xunseen", "k": k, "layout": li, "backends": nbe, "row_patterns": x_patterns, "seed": seed})));
+            }
+        }
         Plan {
             jobs,
             budget_s: if t { 2400 } else { 40 },
@@ -581,6 +787,29 @@ impl Harness for C18 {
                 ("many_mapper_cases", 9_000),
                 ("many_mapper_stream_with_repeats", 9_000),
                 ("many_mapper_order_not_identity", 6_000),
+                // extreme pass-through values / extreme codes
+                // (quick-tier counts are 1.05x .. 1.25x these; independent of VERIF_SEED)
+                ("ptval_cases", 500_000),
+                ("ptval_class_extreme_pass_through_values", 500_000),
+                ("ptval_negative_zero_unchanged", 200_000),
+                ("ptval_positive_zero_unchanged", 200_000),
+                ("ptval_subnormal_unchanged", 600_000),
+                ("ptval_below_epsilon_unchanged", 800_000),
+                ("ptval_huge_unchanged", 500_000),
+                ("ptval_plain_column_before_categoricals", 250_000),
+                ("ptval_plain_column_between_categoricals", 300_000),
+                ("ptval_plain_column_after_categoricals", 250_000),
+                ("ptval_plain_column_before_between_and_after", 150_000),
+                ("ptval_index_list_not_sorted", 400_000),
+                ("xunseen_cases", 350_000),
+                ("xunseen_rejected", 350_000),
+                ("xunseen_control_encoded_correctly", 2_500),
+                ("xunseen_fraction_in_range", 35_000),
+                ("xunseen_negative_integer", 35_000),
+                ("xunseen_negative_fraction", 17_000),
+                ("xunseen_integer_above_65535", 70_000),
+                ("xunseen_fraction_above_65535", 17_000),
+                ("xunseen_two_invalid_values", 180_000),
             ],
             bounds: json!({
                 "layout": format!("every p<={}, every subset of categorical columns, every category-count vector in {{1..{}}}^|S|, index list in every order for |S|<={} (else sorted, reversed, rotated, evens-then-odds, first-two-swapped), 3 code schemes x 3 row schemes (n = kk+1, kk, 2kk rows where kk = largest category count), {} backends", p_all, kmax, full, nbe),
@@ -592,7 +821,9 @@ impl Harness for C18 {
                 "many_categories_onehot": format!("every k in 7..={}: layouts [C], [C,P,P], [P,C,P], [P,P,C], [C,P,C], [P,C,P,C,P] (C categorical with k categories; in the two-categorical layouts the second one has 2 or k categories in a reversed sweep and the index list is given sorted or reversed) x row patterns: n=k every category once, n=k+1 one extra copy of category c at row q for EVERY (c,q) with c<q<=k, n=2k pairs / sweep+reversed sweep / sweep+stride-coprime sweep x 4 code schemes (identity 0..k-1, numerically descending, contiguous codes in stride-coprime order, scrambled codes over the whole u16 range incl. 0 and 65535) x {} backends; judged by the same reference encoder (shape, first-appearance order, exactly one 1 per row, pass-through columns bit for bit, index-order independence)", k_many, nbe),
                 "many_categories_error_clauses": format!("every k in 7..={}: layouts [P,C,P] and [C,P,C] (k categories each) x row patterns n=k, n=k+1 (category 0 repeated in the last row), n=2k pairs x 4 code schemes x {} backends x every cell of every categorical column x (12 replacement values -> transform must return Err | 8 fractional offsets -> fit must return Err)", k_many, nbe),
                 "many_categories_mapper": format!("CategoryMapper, u16 and String categories, every k in 7..={}: streams whose first-appearance order is the identity / reversed / stride-coprime order of the k letters x the same row patterns (all distinct; one extra copy of category c at position q for every c<q<=k; every category twice in 3 arrangements); fit_to_iter, from_positional_category_vec and from_category_map (bijections identity, reversed, stride-coprime, rotated by one) all checked for get_num/get_cat/get_one_hot/invert_one_hot/get_ordinal mutually inverse, indices = first appearance / given positions, two never-seen letters -> None", k_many),
-                "seed": format!("VERIF_SEED={} selects the code offset / table rotation / plain-value shift of the alphabets", seed),
+                "pass_through_values": format!("every p<={}, every subset of categorical columns that leaves a plain column, plus the framed layouts [P,C,P,C,P], [P,C,C,P,C,P], [P,C,P,C,P,C,P]{} (a plain column before, between and after the categorical ones) x every category-count vector in {{1..3}}^|S| x index list in every order (|S|<=3) x 3 code schemes x {} row schemes (n = kk+1, kk{}) x {} backends x {} fill mode(s) x EVERY rotation a of the {}-letter pass-through alphabet of the element type (f64: +0.0, -0.0, 7.3e-17, -2.2e-16, 5e-324, 1e-300, 6e-8, 1e-40, 1e300, 3e38, 0.1+0.2, -5e-324, -1e300, 2.5; f32: +0.0, -0.0, 7.3e-17, -2.2e-16, 1.4e-45, 1e-40, 6e-8, -1e-40, 3e38, -3e38, 0.1f32+0.2f32, -1.4e-45, f32::MIN_POSITIVE, 2.5): cell (r, j-th plain column) holds letter (a + s1 r + s2 j) mod {} (mode 1: whole column one letter), so every plain cell holds every letter; output compared with the reference encoder, pass-through cells bit for bit (sign of zero included)", p_pt, if t { ", [P,C,P,C,P,C,P,C,P]" } else { "" }, pt_row_schemes, if t { ", 2kk" } else { "" }, nbe, pt_modes, N_PT, N_PT),
+                "invalid_values_with_extreme_codes": format!("every k in 2..={}: layouts [C], [P,C,P], [C,P,C], [P,C,P,C,P] whose categorical columns ALL hold both legal extreme codes 0 and 65535: every first-appearance arrangement of {{0,65535}}, {{0,65535,1}}, {{0,65535,65534}}, {{0,65535,1,65534}}{} x row patterns n=k, k+1{} x index list sorted/reversed x {} backends x (control: the unchanged matrix must be encoded exactly as the reference encoder says | every categorical column x every cell x 10 invalid values [12.5, -4, 65536, 1e9, -0.5, 65535.5, 2^32, -65535, 131071, 0.5] x (alone | together with the next invalid value in the next row) -> transform must return Err, never Ok)", k_x, if t { ", {0,65535,1,65534,300}" } else { "" }, if t { ", 2k" } else { "" }, nbe),
+                "seed": format!("VERIF_SEED={} selects the code offset / table rotation / plain-value shift of the alphabets and the strides of the pass-through letter assignment", seed),
             }),
         }
     }
@@ -608,6 +839,8 @@ impl Harness for C18 {
             "many-unseen" => run_many_unseen(job),
             "many-nonint" => run_many_nonint(job),
             "many-mapper" => run_mapper_many(job),
+            "ptval" => run_ptval(job),
+            "xunseen" => run_xunseen(job),
             other => panic!("unknown job kind {}", other),
         }
     }
